@@ -101,7 +101,7 @@ func hasMod(mods []string, m string) bool {
 
 // TempEncode is the name an output path has inside the task's temp directory.
 func TempEncode(p string) string {
-	p = strings.ReplaceAll(p, "../", "__parent__")
+	p = encodeParents(p)
 	if strings.HasPrefix(p, "/") {
 		p = "__fsroot__" + p
 	}
@@ -208,7 +208,7 @@ func FormatCommand(cmd string, prepend string, tv *TaskView) (string, error) {
 			if !ok {
 				return "", &FormatErr{"missing out path " + ph.Name}
 			}
-			v = strings.ReplaceAll(ApplyMods(TempEncode(p), ph.Mods), "../", "__parent__")
+			v = encodeParents(ApplyMods(TempEncode(p), ph.Mods))
 		case "os":
 			p, ok := tv.Outs[ph.Name]
 			if !ok {
@@ -326,4 +326,22 @@ func TempDirName(id *TempDirIdentity) string {
 	}
 	h := sha1.Sum([]byte(strings.Join(pcs, "")))
 	return prefix + "." + hex.EncodeToString(h[:])
+}
+
+// encodeParents replaces every whole ".." segment (followed by "/") by the placeholder.
+func encodeParents(p string) string {
+	segs := strings.Split(p, "/")
+	out := ""
+	for i, s := range segs {
+		last := i == len(segs)-1
+		switch {
+		case s == ".." && !last:
+			out += "__parent__"
+		case !last:
+			out += s + "/"
+		default:
+			out += s
+		}
+	}
+	return out
 }
